@@ -95,6 +95,9 @@ def events(ctx):
                 mp["fecf"] = rng.choice([[], [1], [2], [4], [len(raw)]])
             elif k == 4:
                 raw = raw + [rng.randrange(256) for _ in range(rng.randrange(1, 9))]
+            elif k == 5 and len(raw) > 12:
+                # the receive buffer ends 1..9 octets too early (matching parameters): nothing but a refusal
+                raw = raw[:len(raw) - rng.randrange(1, 10)]
             yield record("uslp.frame.unpack", {"octets": raw, "mp": mp})
 
 
